@@ -70,16 +70,23 @@ def run(ctx):
     # ---- degrees
     with res.guard("degrees"):
         for fn, meth in ROLE_OF.items():
-            v = ctx.view(f"degree.{fn}")
-            # (two modules are called degree.py: pick the directed one)
-            if "directed" not in v.fi.module.name:
-                v = ctx.view(ctx.prog.functions[f"hypergraphx.measures.directed.degree.{fn}"])
+            v = ctx.view(ctx.prog.functions[f"hypergraphx.measures.directed.degree.{fn}"])
             f = v.fi.short
             calls = [n for n in ast.walk(v.fi.node) if isinstance(n, ast.Call) and isinstance(n.func, ast.Attribute) and n.func.attr in ("get_source_edges", "get_target_edges", "get_incident_edges")]
-            res.check(bool(calls) and all(c.func.attr == meth for c in calls), "K-ROLE", f, norm(calls[0]) if calls else meth, "role", f"{fn} does not count the hyperedges returned by {meth}", loc(v.fi, v.fi.node))
-            res.check(all(c.args and norm(c.args[0]) == "node" for c in calls), "K-ROLE", f, norm(calls[0]) if calls else meth, "same-node", "the incident list of another node is counted", loc(v.fi, v.fi.node))
-            rets = [n for n in ast.walk(v.fi.node) if isinstance(n, ast.Return)]
-            res.check(all(isinstance(r.value, ast.Call) and isinstance(r.value.func, ast.Name) and r.value.func.id == "len" for r in rets), "K-ROLE", f, norm(rets[0]), "len", "the degree is not the length of the role-specific incident list", loc(v.fi, rets[0]))
+            if not calls:
+                res.unknown("K-ROLE", f, meth, "role", f"no call of a role-specific incidence query found in {fn}", loc(v.fi, v.fi.node))
+            else:
+                res.check(all(c.func.attr == meth for c in calls), "K-ROLE", f, norm(calls[0]), "role", f"{fn} does not count the hyperedges returned by {meth}", loc(v.fi, v.fi.node))
+                res.check(all(c.args and norm(v.inline(c.args[0])) == "node" for c in calls), "K-ROLE", f, norm(calls[0]), "same-node", "the incident list of another node is counted", loc(v.fi, v.fi.node))
+            for r in [n for n in ast.walk(v.fi.node) if isinstance(n, ast.Return) and n.value is not None]:
+                e = v.inline(r.value)
+                is_len = isinstance(e, ast.Call) and isinstance(e.func, ast.Name) and e.func.id == "len" and len(e.args) == 1
+                inner = e.args[0] if is_len else None
+                if is_len and isinstance(inner, ast.Call) and isinstance(inner.func, ast.Name) and inner.func.id in ("list", "tuple") and inner.args:
+                    inner = inner.args[0]
+                good = is_len and isinstance(inner, ast.Call) and isinstance(inner.func, ast.Attribute) and inner.func.attr in ("get_source_edges", "get_target_edges")
+                helper = isinstance(e, ast.Call) and bool(ctx.callees(v.fi, getattr(e, "_orig", e)))
+                res.add("K-ROLE", f, norm(r), "len", "ok" if good else ("unknown" if helper else "violation"), "" if good else "the degree is not the length of the role-specific incident list", loc(v.fi, r))
             with res.guard("F.check_usectx, res, v.fi, order, size"):
                 F.check_use(ctx, res, v.fi, ("order", "size"))
             with res.guard("F.check_forwardingctx, res, v.fi"):
@@ -89,16 +96,30 @@ def run(ctx):
         for fn, inner in (("in_degree_sequence", "in_degree"), ("out_degree_sequence", "out_degree")):
             v = ctx.view(ctx.prog.functions[f"hypergraphx.measures.directed.degree.{fn}"])
             f = v.fi.short
-            comps = [n for n in ast.walk(v.fi.node) if isinstance(n, ast.DictComp)]
-            if not comps:
-                raise AnalysisError(f"{f}: dict comprehension idiom not found")
-            for c in comps:
-                g = c.generators[0]
-                tgt = g.target.id if isinstance(g.target, ast.Name) else None
-                it_ok = isinstance(g.iter, ast.Call) and isinstance(g.iter.func, ast.Attribute) and g.iter.func.attr == "get_nodes" and not g.ifs
-                val_ok = isinstance(c.value, ast.Call) and isinstance(c.value.func, ast.Name) and c.value.func.id == inner and len(c.value.args) >= 2 and norm(c.value.args[1]) == tgt and isinstance(c.key, ast.Name) and c.key.id == tgt
-                res.check(it_ok, "D-SEQ", f, norm(c), "all-nodes", "the sequence does not list every node of get_nodes() once", loc(v.fi, c))
-                res.check(val_ok, "D-SEQ", f, norm(c), "same-node", f"the value stored for a node is not {inner}(hg, <that node>)", loc(v.fi, c))
+            forms = []
+            for n in ast.walk(v.fi.node):
+                if isinstance(n, ast.DictComp):
+                    g = n.generators[0]
+                    forms.append((n, g.iter, bool(g.ifs) or len(n.generators) != 1, g.target.id if isinstance(g.target, ast.Name) else None, n.key, n.value))
+                if isinstance(n, ast.For) and isinstance(n.target, ast.Name):
+                    for st in ast.walk(n):
+                        if isinstance(st, ast.Assign) and len(st.targets) == 1 and isinstance(st.targets[0], ast.Subscript) and isinstance(st.targets[0].value, ast.Name):
+                            forms.append((n, n.iter, st not in n.body, n.target.id, st.targets[0].slice, st.value))
+            if not forms:
+                rets = [r for r in ast.walk(v.fi.node) if isinstance(r, ast.Return) and isinstance(r.value, ast.Call) and ctx.callees(v.fi, r.value)]
+                names = {x.id for r in rets for x in ast.walk(r.value) if isinstance(x, ast.Name)}
+                other = {"in_degree", "out_degree"} - {inner}
+                if rets and (names & other) and inner not in names:
+                    res.violation("D-SEQ", f, norm(rets[0]), "same-node", f"the sequence is built from {sorted(names & other)[0]} instead of {inner}", loc(v.fi, rets[0]))
+                else:
+                    res.unknown("D-SEQ", f, "{node: degree(node) for node in hg.get_nodes()}", "all-nodes", "neither a dict comprehension nor a filling loop found (delegated to a helper?)", loc(v.fi, v.fi.node))
+            for c, it, filtered, tgt, key, val in forms:
+                it = v.inline(it)
+                it_ok = isinstance(it, ast.Call) and isinstance(it.func, ast.Attribute) and it.func.attr == "get_nodes" and not filtered
+                val = v.inline(val)
+                val_ok = isinstance(val, ast.Call) and isinstance(val.func, ast.Name) and val.func.id == inner and len(val.args) >= 2 and norm(val.args[1]) == tgt and isinstance(key, ast.Name) and key.id == tgt
+                res.check(it_ok, "D-SEQ", f, norm(c)[:160], "all-nodes", "the sequence does not list every node of get_nodes() once", loc(v.fi, c))
+                res.check(val_ok, "D-SEQ", f, norm(c)[:160], "same-node", f"the value stored for a node is not {inner}(hg, <that node>)", loc(v.fi, c))
             with res.guard("F.check_forwardingctx, res, v.fi"):
                 F.check_forwarding(ctx, res, [v.fi])
             with res.guard("F.check_usectx, res, v.fi, order, size"):
@@ -113,85 +134,147 @@ def run(ctx):
         a = augs[0]
         res.check(isinstance(a.op, ast.Add) and isinstance(a.value, ast.Constant) and a.value.value == 1, "D-INC", f, norm(a), "one-per-edge", "a hyperedge does not contribute exactly 1 to its cell", loc(v.fi, a))
         idx = a.target.slice.elts if isinstance(a.target.slice, ast.Tuple) else []
-        roles = []
+
+        def role_of(e):
+            """role of the side whose size indexes the cell: from the kind of what len() measures, else from [0]/[1]"""
+            e = v.inline(e)
+            for x in ast.walk(e):
+                if isinstance(x, ast.Call) and isinstance(x.func, ast.Name) and x.func.id == "len" and x.args:
+                    k = elem_of(v.kind(x.args[0]))
+                    if isinstance(k, Atom) and k.role:
+                        return k.role
+                    for y in ast.walk(x.args[0]):
+                        if isinstance(y, ast.Subscript) and isinstance(y.slice, ast.Constant) and y.slice.value in (0, 1):
+                            return {0: "SRC", 1: "TGT"}[y.slice.value]
+            return None
+
+        roles = [role_of(e) for e in idx]
+        offs = []
         for e in idx:
-            role = None
-            names = [x.id for x in ast.walk(e) if isinstance(x, ast.Name)]
-            for nm in names:
-                defs = [m for m in walk_no_nested(v.fi.node) if isinstance(m, ast.Assign) and isinstance(m.targets[0], ast.Name) and m.targets[0].id == nm]
-                for dfn in defs:
-                    for x in ast.walk(dfn.value):
-                        if isinstance(x, ast.Subscript) and isinstance(x.slice, ast.Constant) and x.slice.value in (0, 1):
-                            k = elem_of(v.kind(x))
-                            role = (k.role if isinstance(k, Atom) and k.role else {0: "SRC", 1: "TGT"}[x.slice.value])
-            off = isinstance(e, ast.BinOp) and isinstance(e.op, ast.Sub) and isinstance(e.right, ast.Constant) and e.right.value == 1
-            roles.append((role, off))
-        res.check(len(roles) == 2 and roles[0][0] == "SRC" and roles[1][0] == "TGT", "K-ROLE", f, norm(a.target), "row=source,col=target", f"the signature cell is indexed by ({roles[0][0] if roles else '?'}, {roles[1][0] if len(roles) > 1 else '?'}) sizes instead of (source, target)", loc(v.fi, a))
-        res.check(len(roles) == 2 and all(o for _, o in roles), "K-ROLE", f, norm(a.target), "size-1", "cell indices are not (size - 1)", loc(v.fi, a))
+            ie = v.inline(e)
+            offs.append(True if (isinstance(ie, ast.BinOp) and isinstance(ie.op, ast.Sub) and isinstance(ie.right, ast.Constant) and ie.right.value == 1) else (False if isinstance(ie, (ast.Call, ast.Name)) or (isinstance(ie, ast.BinOp) and isinstance(ie.right, ast.Constant)) else None))
+        if len(roles) == 2 and None not in roles:
+            res.check(roles == ["SRC", "TGT"], "K-ROLE", f, norm(a.target), "row=source,col=target", f"the signature cell is indexed by ({roles[0]}, {roles[1]}) sizes instead of (source, target)", loc(v.fi, a))
+        else:
+            res.unknown("K-ROLE", f, norm(a.target), "row=source,col=target", "the sides whose sizes index the cell were not identified", loc(v.fi, a))
+        if len(offs) == 2 and None not in offs:
+            res.check(all(offs), "K-ROLE", f, norm(a.target), "size-1", "cell indices are not (size - 1)", loc(v.fi, a))
+        else:
+            res.unknown("K-ROLE", f, norm(a.target), "size-1", "index offsets not recognised", loc(v.fi, a))
         lp = v.enclosing(a, (ast.For,))
         zeros = [n for n in walk_no_nested(v.fi.node) if isinstance(n, ast.Call) and isinstance(n.func, ast.Attribute) and n.func.attr == "zeros"]
-        bound_names = {x.id for z in zeros for x in ast.walk(z) if isinstance(x, ast.Name)} - {"np"}
-        ok = False
+        bound_names = {x.id for z in zeros for x in ast.walk(v.inline(z)) if isinstance(x, ast.Name)} - {"np"}
         why = "the listing of hyperedges is not bounded by the bound that sized the array: a larger hyperedge indexes outside the array (or is counted)"
-        if lp is not None and isinstance(lp.iter, ast.Call) and isinstance(lp.iter.func, ast.Attribute) and lp.iter.func.attr == "get_edges":
-            kw = {k.arg: k.value for k in lp.iter.keywords}
-            ok = "size" in kw and norm(kw["size"]) in bound_names and "up_to" in kw and isinstance(kw["up_to"], ast.Constant) and kw["up_to"].value is True
-        if not ok and lp is not None:
-            # explicit guard idiom inside the loop
-            for n in ast.walk(lp):
-                if isinstance(n, ast.If) and any(nm in norm(n.test) for nm in bound_names) and ("<=" in norm(n.test) or ">" in norm(n.test)):
-                    ok = True
-        res.check(ok, "B-BOUND", f, norm(lp.iter) if lp is not None else "for hyperedge in ...", "bounded-listing", why, loc(v.fi, lp if lp is not None else v.fi.node))
+        st = "unknown"
+        if lp is not None:
+            it = v.inline(lp.iter)
+            ifs_with_bound = [n for n in ast.walk(lp) if isinstance(n, ast.If) and any(isinstance(x, ast.Name) and x.id in bound_names for x in ast.walk(v.inline(n.test)))]
+            if isinstance(it, ast.Call) and isinstance(it.func, ast.Attribute) and it.func.attr == "get_edges":
+                kw = {k.arg: k.value for k in it.keywords}
+                if "size" in kw and any(isinstance(x, ast.Name) and x.id in bound_names for x in ast.walk(v.inline(kw["size"]))) and "up_to" in kw and isinstance(kw["up_to"], ast.Constant) and kw["up_to"].value is True and norm(v.inline(kw["size"])) in bound_names:
+                    st = "ok"
+                elif ifs_with_bound:
+                    # explicit guard idiom inside the loop: the accumulation must be control-dependent on it
+                    aid = v.cfg_id(a)
+                    dom = any(v.cfg.branch_dominated(v.cfg.by_ast[id(i.test)], lab, aid) for i in ifs_with_bound for lab in ("T", "F"))
+                    st = "ok" if dom else "violation"
+                elif not it.args and (not kw or set(kw) <= {"size", "order", "up_to"}):
+                    st = "violation"
+        res.add("B-BOUND", f, norm(lp.iter) if lp is not None else "for hyperedge in ...", "bounded-listing", st, why if st != "ok" else "", loc(v.fi, lp if lp is not None else v.fi.node))
     # ---- reciprocity siblings
     with res.guard("reciprocity siblings"):
-        for d in SIBLINGS:
-            v = ctx.view(d)
-            f = v.fi.short
-            accs = _accumulators(v.fi.node)
-            loops = [n for n in v.fi.node.body if isinstance(n, ast.For)]
-            if len(loops) < 3:
-                raise AnalysisError(f"{f}: expected counting / matching / ratio loops")
-            first = loops[0]
-            guards = []
-            for n in ast.walk(first):
-                if isinstance(n, ast.If):
-                    for atom, _ in _atoms(n.test, True):
-                        if isinstance(atom, ast.Compare) and len(atom.ops) == 2 and norm(atom.comparators[1]) == "max_hyperedge_size":
-                            guards.append((n, atom))
-            res.check(len(guards) == 1, "M-SIZEGUARD", f, norm(guards[0][1]) if guards else "2 <= size <= max_hyperedge_size", "exists", "the counting loop has no (single) size guard against max_hyperedge_size", loc(v.fi, first))
-            for ifn, atom in guards:
-                ok = isinstance(atom.left, ast.Constant) and atom.left.value == 2 and all(isinstance(o, ast.LtE) for o in atom.ops)
-                res.check(ok, "M-SIZEGUARD", f, norm(atom), "2<=size<=B", "the size guard is not `2 <= size <= max_hyperedge_size`", loc(v.fi, ifn))
-                sz = atom.comparators[0]
-                defs = [m for m in ast.walk(first) if isinstance(m, ast.Assign) and isinstance(m.targets[0], ast.Name) and isinstance(sz, ast.Name) and m.targets[0].id == sz.id]
-                k = v.kind(defs[-1].value) if defs else None
-                from ..kinds import SIZE
+        from .. import predtab
+        from ..kinds import SIZE
+        from ..schema import closure
 
-                res.add("M-SIZEGUARD", f, norm(defs[-1]) if defs else norm(sz), "size=|src|+|tgt|", "ok" if k == SIZE else "unknown", "" if k == SIZE else f"kind {k!r}", loc(v.fi, ifn))
-                lab = _implied_branch(ifn.test, atom, True)
-                tid = v.cfg.by_ast[id(ifn.test)]
-                for w, name in _writes_to(accs, first):
-                    wid = v.cfg_id(w)
-                    dom = lab is not None and v.cfg.branch_dominated(tid, lab, wid)
-                    res.check(dom, "G-DOM", f, norm(w), name, f"`{name}` is updated for hyperedges that fail the size guard: hyperedges larger than the bound influence the result", loc(v.fi, w))
-            # D-INC: tot / rec incremented by 1
-            for lp_ in loops[:2]:
-                for n in ast.walk(lp_):
-                    if isinstance(n, ast.AugAssign) and isinstance(n.target, ast.Subscript) and norm(n.target.value) in ("tot", "rec"):
-                        res.check(isinstance(n.op, ast.Add) and isinstance(n.value, ast.Constant) and n.value.value == 1, "D-INC", f, norm(n), norm(n.target.value), "a hyperedge is not counted exactly once", loc(v.fi, n))
-                        depth = len([x for x in v.enclosing_all(n, (ast.For, ast.While))])
-                        res.check(depth == 1, "D-INC", f, norm(n), norm(n.target.value) + ":depth", "the count is incremented inside an inner loop: a hyperedge can be counted several times", loc(v.fi, n))
-            # G-RATIO
-            last = loops[-1]
-            divs = [n for n in ast.walk(last) if isinstance(n, ast.BinOp) and isinstance(n.op, ast.Div)]
-            res.check(bool(divs), "G-RATIO", f, "rec[size] / tot[size]", "ratio", "the ratio rec/tot is not computed", loc(v.fi, last))
-            for dv in divs:
-                ifs = v.enclosing_all(dv, (ast.If,))
-                ok = any("tot" in norm(i.test) and ("!= 0" in norm(i.test) or "> 0" in norm(i.test)) and any(dv is x for b in i.body for x in ast.walk(b)) for i in ifs)
-                res.check(ok and norm(dv.left).startswith("rec") and norm(dv.right).startswith("tot"), "G-RATIO", f, norm(dv), "guarded", "the ratio is not rec/tot under a `tot != 0` guard", loc(v.fi, dv))
-                for i in ifs:
-                    z = [x for b in i.orelse for x in ast.walk(b) if isinstance(x, ast.Assign) and isinstance(x.value, ast.Constant) and x.value.value == 0]
-                    res.check(bool(z), "G-RATIO", f, norm(i.test), "zero-otherwise", "sizes without hyperedges do not yield 0", loc(v.fi, i))
+        for d in SIBLINGS:
+            top = ctx.view(d)
+            f = top.fi.short
+            fis = closure(ctx, top.fi, prefix="hypergraphx.measures.directed")
+            n_guards = n_ratio = n_inc = 0
+            for fi in fis:
+                v = ctx.view(fi)
+                params = [p.arg for p in fi.params]
+                accs = _accumulators(fi.node)
+                counters = {st.targets[0].id for st in fi.node.body if isinstance(st, ast.Assign) and isinstance(st.targets[0], ast.Name) and isinstance(st.value, ast.DictComp) and isinstance(st.value.value, ast.Constant) and st.value.value.value == 0}
+                # counters handed back by a helper: `rec, tot, edges = _collect(...)`
+                for st in fi.node.body:
+                    if isinstance(st, ast.Assign) and isinstance(st.targets[0], ast.Tuple) and isinstance(st.value, ast.Call) and ctx.callees(fi, st.value):
+                        for t in st.targets[0].elts:
+                            if isinstance(t, ast.Name):
+                                accs.add(t.id)
+                # ---- the counting loop(s): loops over the hyperedges that contain a test against the bound parameter
+                for lp in [n for n in walk_no_nested(fi.node) if isinstance(n, ast.For)]:
+                    if v.enclosing(lp, (ast.For, ast.While)) is not None:
+                        continue
+                    for ifn in [n for n in ast.walk(lp) if isinstance(n, ast.If)]:
+                        names = sorted({x.id for x in ast.walk(ifn.test) if isinstance(x, ast.Name)})
+                        bound = [n for n in names if n in params]
+                        sizev = [n for n in names if n not in params]
+                        if len(bound) != 1 or len(sizev) != 1:
+                            continue
+                        if not any(isinstance(x, ast.Compare) for x in ast.walk(ifn.test)):
+                            continue
+                        defs = [m for m in ast.walk(lp) if isinstance(m, ast.Assign) and isinstance(m.targets[0], ast.Name) and m.targets[0].id == sizev[0]]
+                        k = v.kind(defs[-1].value) if defs else None
+                        if k != SIZE:
+                            continue  # not a test of a hyperedge size
+                        n_guards += 1
+                        lab = predtab.same(ifn.test, [sizev[0], bound[0]], lambda s_, b_: 2 <= s_ <= b_)
+                        if lab is None:
+                            res.unknown("M-SIZEGUARD", fi.short, norm(ifn.test), "2<=size<=B", "the size guard is not a plain comparison predicate", loc(fi, ifn))
+                            continue
+                        res.check(lab in ("T", "F"), "M-SIZEGUARD", fi.short, norm(ifn.test), "2<=size<=B", f"the size guard is not `2 <= size <= {bound[0]}` (its truth table differs)", loc(fi, ifn))
+                        res.ok("M-SIZEGUARD", fi.short, norm(defs[-1]), "size=|src|+|tgt|", loc(fi, ifn))
+                        if lab not in ("T", "F"):
+                            continue
+                        tid = v.cfg.by_ast[id(ifn.test)]
+                        for w, name in _writes_to(accs, lp):
+                            wid = v.cfg_id(w)
+                            dom = v.cfg.branch_dominated(tid, lab, wid)
+                            res.check(dom, "G-DOM", fi.short, norm(w), name, f"`{name}` is updated for hyperedges that fail the size guard: hyperedges larger than the bound influence the result", loc(fi, w))
+                # ---- D-INC: counters are incremented by 1, once per hyperedge
+                for n in walk_no_nested(fi.node):
+                    if isinstance(n, ast.AugAssign) and isinstance(n.target, ast.Subscript) and isinstance(n.target.value, ast.Name) and (n.target.value.id in counters or (n.target.value.id in accs and isinstance(n.value, ast.Constant))):
+                        if isinstance(n.op, ast.Div):
+                            continue
+                        n_inc += 1
+                        nm = n.target.value.id
+                        res.check(isinstance(n.op, ast.Add) and isinstance(n.value, ast.Constant) and n.value.value == 1, "D-INC", fi.short, norm(n), nm, "a hyperedge is not counted exactly once", loc(fi, n))
+                        depth = len(v.enclosing_all(n, (ast.For, ast.While)))
+                        res.check(depth == 1, "D-INC", fi.short, norm(n), nm + ":depth", "the count is incremented inside an inner loop: a hyperedge can be counted several times", loc(fi, n))
+                # ---- G-RATIO: every division of a count by a total is control-dependent on `total != 0`
+                for dv in [n for n in walk_no_nested(fi.node) if isinstance(n, ast.BinOp) and isinstance(n.op, ast.Div) and isinstance(n.left, ast.Subscript) and isinstance(n.right, ast.Subscript)]:
+                    n_ratio += 1
+                    den = norm(dv.right)
+                    did = v.cfg_id(dv)
+                    ok = False
+                    for i in [n for n in walk_no_nested(fi.node) if isinstance(n, ast.If)]:
+                        for atom, _ in _atoms(i.test, True):
+                            if isinstance(atom, ast.Compare) and len(atom.ops) == 1 and den in (norm(atom.left), norm(atom.comparators[0])):
+                                other = atom.comparators[0] if norm(atom.left) == den else atom.left
+                                zero = isinstance(other, ast.Constant) and other.value == 0
+                                if not zero:
+                                    continue
+                                nonzero_when = True if isinstance(atom.ops[0], (ast.NotEq, ast.Gt)) else (False if isinstance(atom.ops[0], ast.Eq) else None)
+                                if isinstance(atom.ops[0], ast.Lt) and norm(atom.left) != den:
+                                    nonzero_when = True  # 0 < tot
+                                if nonzero_when is None:
+                                    continue
+                                lab = _implied_branch(i.test, atom, nonzero_when)
+                                if lab and v.cfg.branch_dominated(v.cfg.by_ast[id(i.test)], lab, did):
+                                    ok = True
+                            elif isinstance(atom, ast.Subscript) and norm(atom) == den:
+                                lab = _implied_branch(i.test, atom, True)
+                                if lab and v.cfg.branch_dominated(v.cfg.by_ast[id(i.test)], lab, did):
+                                    ok = True
+                    res.check(ok, "G-RATIO", fi.short, norm(dv), "guarded", "the ratio is computed without a `total != 0` guard (division by zero for a size without hyperedges)", loc(fi, dv))
+            if n_guards == 0:
+                res.unknown("M-SIZEGUARD", f, "2 <= size <= max_hyperedge_size", "exists", "no test of a hyperedge size against the bound was recognised in the function or its helpers", loc(top.fi, top.fi.node))
+            if n_ratio == 0:
+                res.unknown("G-RATIO", f, "rec[size] / tot[size]", "ratio", "the ratio rec/tot was not recognised", loc(top.fi, top.fi.node))
+            if n_inc == 0:
+                res.unknown("D-INC", f, "tot[size] += 1", "count", "no counter increments recognised", loc(top.fi, top.fi.node))
     # ---- E-SHAREDVAL: values stored into an accumulator inside a loop are created in that very iteration
     with res.guard("E-SHAREDVAL: values stored into an accumulator inside a loop are created in that very iteration"):
         res.rules["E-SHAREDVAL"] = "a mutable object stored as the value of several accumulator entries is created per entry (no one set shared between keys) when entries are later updated in place"
@@ -221,9 +304,36 @@ def run(ctx):
                         bad = bool(outside) and acc in inplace
                         res.check(not bad, "E-SHAREDVAL", f, norm(n), acc, f"`{val}` is created once outside the loop over the keys and stored under each of them, and entries of `{acc}` are updated in place elsewhere: an update of one entry leaks into all entries sharing the object", loc(v.fi, n))
             res.ok("E-SHAREDVAL", f, f"{n_checked} aliasing stores examined; in-place updated accumulators: {sorted(inplace)}", "scan", loc(v.fi, v.fi.node))
-        # exact: swapped pair
+    # exact: swapped pair
+    with res.guard("exact reciprocity looks up the swapped pair"):
         v = ctx.view("reciprocity.exact_reciprocity")
-        sw = [n for n in walk_no_nested(v.fi.node) if isinstance(n, ast.Tuple) and len(n.elts) == 2 and all(isinstance(e, ast.Subscript) and isinstance(e.slice, ast.Constant) for e in n.elts) and [e.slice.value for e in n.elts] == [1, 0] and norm(n.elts[0].value) == norm(n.elts[1].value)]
-        res.check(bool(sw), "K-ROLE", v.fi.short, norm(sw[0]) if sw else "(edge[1], edge[0])", "swapped-pair", "exact reciprocity does not look up the hyperedge with source and target exchanged", loc(v.fi, v.fi.node))
+        found = 0
+        for n in walk_no_nested(v.fi.node):
+            if isinstance(n, ast.Compare) and len(n.ops) == 1 and isinstance(n.ops[0], (ast.In, ast.NotIn)):
+                e = v.inline(n.left)
+                if not (isinstance(e, ast.Tuple) and len(e.elts) == 2):
+                    continue
+                roles = []
+                for x in e.elts:
+                    k = elem_of(v.kind(x))
+                    r = k.role if isinstance(k, Atom) and k.role else None
+                    if r is None:
+                        for y in ast.walk(x):
+                            if isinstance(y, ast.Subscript) and isinstance(y.slice, ast.Constant) and y.slice.value in (0, 1):
+                                r = {0: "SRC", 1: "TGT"}[y.slice.value]
+                    roles.append(r)
+                if None in roles:
+                    lp = v.enclosing(n, (ast.For,))
+                    if lp is not None and isinstance(lp.target, ast.Tuple) and len(lp.target.elts) == 2 and all(isinstance(t, ast.Name) for t in lp.target.elts) and all(isinstance(x, ast.Name) for x in e.elts):
+                        order = [t.id for t in lp.target.elts]
+                        if {x.id for x in e.elts} == set(order):
+                            roles = ["SRC" if x.id == order[0] else "TGT" for x in e.elts]
+                found += 1
+                if None in roles:
+                    res.unknown("K-ROLE", v.fi.short, norm(n), "swapped-pair", "the sides of the looked-up pair were not identified", loc(v.fi, n))
+                else:
+                    res.check(roles == ["TGT", "SRC"], "K-ROLE", v.fi.short, norm(n), "swapped-pair", "exact reciprocity does not look up the hyperedge with source and target exchanged", loc(v.fi, n))
+        if not found:
+            res.unknown("K-ROLE", v.fi.short, "(edge[1], edge[0]) in edge_set", "swapped-pair", "no membership test of a (target, source) pair recognised", loc(v.fi, v.fi.node))
     res.assumptions += ["in_degree counts hyperedges in which the node is a SOURCE and out_degree those in which it is a TARGET - the property's own wording, frozen in ROLE_OF"]
     return res
